@@ -47,7 +47,7 @@ man = {
     "engines": [{"name": "cfdpmon", "path": "/verif/cfdpmon", "serves_properties": [c["property_id"] for c in checks],
                  "kind_free_text": "runtime monitoring bench: real handlers in a byte-level loopback with virtual time, recording user/fault-handler/filestore/queue objects, reference models, sharded subprocess driver"}],
     "checks": checks,
-    "notes": "Defects found and repaired are separate 'fix:' commits in /repo (34; see known_findings.json 'fixed' list and DESIGN.md sections 3 and 9.2); no open finding. Validation of the monitors (DESIGN.md 9.3): hand-written mutants (tools/mut.py with mutants/*.json on scratch copies), two AST mutation sweeps (tools/automut.py, mutants/auto-results*.json, mutants/auto-triage.md) and 296 changes seeded by independent sub-agents in eleven rounds (seeded/<id>/, seeded/README.md, seeded/MATRIX.json).",
+    "notes": "Defects found and repaired are separate 'fix:' commits in /repo (34; see known_findings.json 'fixed' list and DESIGN.md sections 3 and 9.2); no open finding. Validation of the monitors (DESIGN.md 9.3): hand-written mutants (tools/mut.py with mutants/*.json on scratch copies), two AST mutation sweeps (tools/automut.py, mutants/auto-results*.json, mutants/auto-triage.md) and 304 changes seeded by independent sub-agents in twelve rounds (seeded/<id>/, seeded/README.md, seeded/MATRIX.json).",
     "not_applicable": na,
 }
 (V / "MANIFEST.json").write_text(json.dumps(man, indent=1) + "\n")
